@@ -95,6 +95,24 @@ CHECKS = {
         note="Order-insensitivity of tie-breaking among exactly equal scores and equality of restricted vs full runs are declined.",
         tech="static analysis: effect/taint analysis (R-EFFECT), selection-predicate normal forms (R-TERM), argument/role lint (R-ROLE)",
         ref="DESIGN.md section 4 C10"),
+    "C13": dict(
+        text="Static term rules on the segment builder with operands located by provenance (factory parameter -> attribute -> "
+             "builder argument -> builder attribute): constructor rejects minScore <= 0; break iff running <= 0 or running <= "
+             "max - T; accept iff running > max (strict); emit iff max >= minScore; every segment is the step-less slice "
+             "input[start:cursor] built via AlignmentSegment.create; both cursors restart just past the breaking position "
+             "and the running score at 0; empty-segment fallback and final emission; the scan visits every position once.",
+        note="Maximality ('cannot be extended to the right') is a property of the scan as an algorithm and is declined.",
+        tech="static analysis: comparison normal forms (values touched only through comparisons) with provenance-located operands (R-TERM)",
+        ref="DESIGN.md section 4 C13"),
+    "C14": dict(
+        text="Static rules on the chainer: abstract interpretation of the join score over the sign domain shows it non-positive "
+             "(both scoring variants) under multiplier >= 0, constant folding shows exactly 0 for a contiguous join; -inf is "
+             "returned iff min(refLen+2refDist, qLen+2qDist) < 0; the query distance is antisymmetric between strands; the DP "
+             "re-initialises to a finite value, records predecessors only on strict improvement over a proper prefix, adds "
+             "the own score once, back-tracks until None and passes empty segments through via complementary predicates.",
+        note="Assumes segmentJoinMultiplier >= 0 (not validated by args.py: observation O6). Optimality over all subsets is declined.",
+        tech="static analysis: sign abstract interpretation (R-SIGN) + term normal forms + structural DP bookkeeping rules",
+        ref="DESIGN.md section 4 C14"),
     "C18": dict(
         text="Static format agreement between XmapReader.writeAlignments and readAlignments/pair parsers: column tables, "
              "separators, comment/header prefixes, header=False, the '(ref,qry)' Alignment grammar with the reader's strip/split "
